@@ -2042,6 +2042,15 @@ if PYARROW_INSTALLED and PANDAS_2_0_0_PLUS:
                 pyarrow.DataType, pyarrow.FixedSizeBinaryType
             ],
         ):
+            if not (
+                pyarrow.types.is_binary(pyarrow_dtype)
+                or pyarrow.types.is_fixed_size_binary(pyarrow_dtype)
+            ):
+                # pyarrow.DataType is the class of every primitive pyarrow
+                # type as well, e.g. pyarrow.int64()
+                return engine.Engine.dtype(
+                    Engine, pd.ArrowDtype(pyarrow_dtype)
+                )
             try:
                 _dtype = cls(length=pyarrow_dtype.byte_width)  # type: ignore
             except (ValueError, AttributeError):
